@@ -62,12 +62,13 @@ func checkC02(ci any, info *CaseInfo) string {
 	}
 
 	// reference: whole buffer
-	whole := &model.Recorder{}
+	lim := 4*len(c.Doc) + 64 // see model.Recorder.Limit
+	whole := &model.Recorder{Limit: lim}
 	wo := guard(func() error { return cd.Parse(c.Doc, whole) })
 	info.Class("whole:" + wo.Class())
 
 	// schedule 1: ParseReader over a reader that returns exactly the chunks
-	rd := &model.Recorder{}
+	rd := &model.Recorder{Limit: lim}
 	ro := guard(func() error {
 		_, err := cd.ParseReader(&chunkReader{chunks: cloneChunks(chunks)}, rd)
 		return err
@@ -84,7 +85,7 @@ func checkC02(ci any, info *CaseInfo) string {
 	// schedule 2: direct Write sequence with optional empty writes; no end of
 	// input is signalled, so the events must be a prefix of the whole-buffer ones
 	if wo.Class() == "accept" {
-		wr := &model.Recorder{}
+		wr := &model.Recorder{Limit: lim}
 		p := cd.NewParser(wr)
 		empty := map[int]bool{}
 		for _, e := range c.Empty {
